@@ -16,7 +16,6 @@ TRUSTED = [
 ]
 ASSUMPTIONS = ["coherent cost vectors; leaf syntenies non-empty with distinct families"]
 OPEN = [
-    "C03_kinds_faithful_statement (DP edge charges = evaluator's subset tests on materialised contents)",
     'C03_statement (restricting to canonical labellings loses nothing); explored against the brute-force specification over every labelling',
 ]
 
